@@ -83,6 +83,9 @@ fn run_c11(out: &mut Out, tier: &str, rng: &mut Rng) {
 }
 
 fn run_c12(out: &mut Out, tier: &str, rng: &mut Rng) {
+    // every kind of unit frame cut to every DLC, each followed by the same frame written out with its 0xFF padding, through
+    // the real network and authority: what is decoded from the short frame is what is decoded from the padded one
+    authgen::run_c06_auth(out, tier, rng);
     drv::run_c12(out, tier, rng);
     authgen::run_generic_auth(out, tier, rng, "decoding");
     out.rule.push_str(AUTH_NOTE);
@@ -134,6 +137,7 @@ fn run_c09(out: &mut Out, tier: &str, rng: &mut Rng) {
 fn run_c10(out: &mut Out, tier: &str, rng: &mut Rng) {
     authgen::run_c10(out, tier, rng);
     authgen::run_c10_foreign(out, tier, rng);
+    authgen::run_c10_timed(out, tier, rng);
 }
 
 fn run_c06(out: &mut Out, tier: &str, rng: &mut Rng) {
